@@ -391,6 +391,14 @@ func runC11(res *Result, tier string, seed int64, replay string) {
 				res.Violate(Violation{Sig: tagSig(fmt.Sprintf("feature-css|%s|body=%v,head=%v", ft.name, inBody, inHead)), Kind: "input", What: fmt.Sprintf("%s: rendered in body=%v, head CSS present=%v", ft.name, inBody, inHead), Input: in})
 			}
 		}
+		// … and the other way round for carousels: every carousel rendered in the body has its rules in the head (the radio
+		// inputs carry the generated id in their class list: mj-carousel-<id>-radio)
+		for _, m := range carouselIDRe.FindAllStringSubmatch(o.html, -1) {
+			if !f.headIDs[m[1]] {
+				res.Violate(Violation{Sig: tagSig("body-carousel-id-not-in-head"), Kind: "input", What: "the body renders a carousel with generated id " + m[1] + ", the head CSS has no rule for it", Input: in})
+				break
+			}
+		}
 		for id := range f.headIDs {
 			if !f.ids[id] {
 				res.Violate(Violation{Sig: tagSig("head-id-not-in-body"), Kind: "input", What: "head CSS refers to generated id " + id + " which no body element carries", Input: in})
@@ -473,5 +481,7 @@ func sameNumber(a, b string) bool {
 	y, ub, ok2 := split(b)
 	return ok1 && ok2 && x == y && ua == ub
 }
+
+var carouselIDRe = regexp.MustCompile(`mj-carousel-([0-9a-f]{16})-radio`)
 
 func init() { register("C11", runC11) }
